@@ -544,12 +544,19 @@ int main(void)
 			mpt_path_fini(&p);
 			free(vtxt);
 		}
-		else if (!strcmp(op, "view") && drv_nw == 4) {
+		else if (!strcmp(op, "view") && (drv_nw == 4 || drv_nw == 5)) {
+			/* g view <path-hex> <sep-hex> [<skip>|last]: the view is made from the whole path, from what is left after
+			 * <skip> calls of mpt_path_next, or from the path reduced by mpt_path_last (offset > 0 in both cases) */
 			MPT_STRUCT(path) p = MPT_PATH_INIT;
+			size_t skip = 0, i;
+			int last = drv_nw == 5 && !strcmp(drv_w[4], "last"), bad = 0;
 			ptxt = get_text(drv_w[2], &plen);
-			if (!ptxt || get_char(drv_w[3], &sep) || nviews >= MAXV) { puts("bad-op"); free(ptxt); continue; }
+			if (!ptxt || get_char(drv_w[3], &sep) || nviews >= MAXV || (drv_nw == 5 && !last && (drv_parse_nat(drv_w[4], &skip) || skip > 8))) { puts("bad-op"); free(ptxt); continue; }
 			p.sep = sep; p.assign = 0;
 			mpt_path_set(&p, ptxt, -1);
+			for (i = 0; i < skip; i++) if (!p.len || mpt_path_next(&p) < 0) bad = 1;
+			if (last && mpt_path_last(&p) < 0) bad = 1;
+			if (bad || !p.len) { result("unbuilt", "-"); free(ptxt); continue; }
 			if (!(views[nviews] = mpt_config_global(&p))) result("refused", "null");
 			else result_n("ok", nviews++);
 			free(ptxt);
